@@ -101,7 +101,7 @@ def foreach_rule(txt):
     """`<recv>.for_each(|<pat>| { <body> });` as a statement -> `for <pat> in <recv> { <body> }`.
     `Iterator::for_each` is by definition the loop calling the closure on each item in order (core docs), so this is a
     desugaring; it is needed because Verus takes neither closures that capture `&mut` state nor closure parameter
-    patterns. Only statement-position calls whose closure body is a block are rewritten; anything else is left alone
+    patterns. Only calls in statement position or as the value of a match arm, whose closure body is a block, are rewritten; anything else is left alone
     (and then fails as unsupported -> inconclusive)."""
     out = txt
     pos = 0
@@ -121,6 +121,11 @@ def foreach_rule(txt):
             elif depth == 0 and c in ";{}":
                 break
             j -= 1
+        arm = False
+        if "=>" in out[j:k]:
+            # value of a match arm: `PAT => <recv>.for_each(..),` -> `PAT => { for .. }`
+            j = j + out[j:k].rindex("=>") + 2
+            arm = True
         recv = out[j:k].strip()
         p0 = k + len(".for_each(|")
         p1 = out.index("|", p0)
@@ -137,7 +142,10 @@ def foreach_rule(txt):
             pos = k + 1
             continue
         lead = out[j:k][: len(out[j:k]) - len(out[j:k].lstrip())]
-        out = out[:j] + lead + "for " + pat + " in " + recv + "\n" + out[b0:b1] + out[b1 + m.end():]
+        loop = "for " + pat + " in " + recv + "\n" + out[b0:b1]
+        if arm:
+            loop = "{ " + loop + " }"
+        out = out[:j] + lead + loop + out[b1 + m.end():]
         pos = j + 1
 
 
